@@ -345,13 +345,13 @@ Proof. rewrite !in_app_iff. cbn. intuition. Qed.
 
 (* The meaning of the entry (ty, c) of page p, for the list L of live spans; n = number of live
    spans having p as first or last page (once if both):
-     - c is n modulo 2^16 (the counter is a uint16);
+     - c is n modulo 2^32 (the counter is a uint32);
      - n = 0: the type is Free;
      - n > 0: the type is a kind of the enum with the same conflict set as the kind of every
        span counted on the page; if it conflicts with itself (Unknown, ImageUnknown) then n = 1. *)
 Definition page_ok (gz : Z) (L : list span) (p : Z) (r : Z * Z) : Prop :=
   let n := tcount gz p L in
-  snd r = n mod 65536 /\
+  snd r = n mod 4294967296 /\
   (n = 0 -> fst r = 0) /\
   (0 < n -> kind_ok (fst r) /\ (conflict (fst r) (fst r) = true -> n = 1) /\
             forall s, In s L -> touchb gz p s = true -> same_class (fst r) (s_kind s)).
@@ -360,10 +360,10 @@ Lemma page_ok_nil gz p : page_ok gz [] p (0, 0).
 Proof. unfold page_ok, tcount; cbn. repeat split; auto; lia. Qed.
 
 (* AllocRegions on a page of the new span: needs the answer "no conflict" for that page and that
-   the counter does not wrap (fewer than 2^16 spans counted so far) *)
+   the counter does not wrap (fewer than 2^32 spans counted so far) *)
 Lemma page_ok_alloc gz L1 L2 p r s :
   page_ok gz (L1 ++ L2) p r -> touchb gz p s = true ->
-  tcount gz p (L1 ++ L2) < 65536 ->
+  tcount gz p (L1 ++ L2) < 4294967296 ->
   slot_conflicts r (s_kind s) = false -> kind_ok (s_kind s) ->
   page_ok gz (L1 ++ s :: L2) p (alloc_one (s_kind s) r).
 Proof.
@@ -402,10 +402,10 @@ Proof.
   intros x Hx Hxt. apply in_insert in Hx. destruct Hx as [->|Hx]; auto. congruence.
 Qed.
 
-(* FreeRegions on a page of the span being freed; n <= 2^16 *)
+(* FreeRegions on a page of the span being freed; n <= 2^32 *)
 Lemma page_ok_free gz L1 L2 p r s :
   page_ok gz (L1 ++ s :: L2) p r -> touchb gz p s = true ->
-  tcount gz p (L1 ++ s :: L2) <= 65536 ->
+  tcount gz p (L1 ++ s :: L2) <= 4294967296 ->
   page_ok gz (L1 ++ L2) p (free_one r).
 Proof.
   destruct r as [ty c]. unfold page_ok. cbn [fst snd].
@@ -413,12 +413,12 @@ Proof.
   pose proof (tcount_nonneg gz p (L1 ++ L2)) as Hn0.
   set (n := tcount gz p (L1 ++ L2)) in *.
   unfold free_one. cbn [fst snd].
-  assert (Hc' : (c - 1) mod 65536 = n mod 65536) by lia.
+  assert (Hc' : (c - 1) mod 4294967296 = n mod 4294967296) by lia.
   rewrite Hc'. split; [reflexivity|].
   destruct (Hp ltac:(lia)) as (Hty & Hself & Hall).
   split.
   - intros ->. reflexivity.
-  - intros Hn. assert (E : n mod 65536 =? 0 = false) by lia. rewrite E.
+  - intros Hn. assert (E : n mod 4294967296 =? 0 = false) by lia. rewrite E.
     split; [exact Hty|]. split; [intros Hs; specialize (Hself Hs); lia|].
     intros x Hx Hxt. apply Hall; auto. apply in_insert. auto.
 Qed.
@@ -449,7 +449,7 @@ Theorem alloc_regions_table_ok g L1 L2 k off sz g' a ro rs :
   table_ok g (L1 ++ L2) ->
   check_conflict g a sz ro rs k = Some (off, false) ->
   alloc_regions g k off sz = Some g' ->
-  (forall p, touchb (g_g g) p (off, sz, k) = true -> tcount (g_g g) p (L1 ++ L2) < 65536) ->
+  (forall p, touchb (g_g g) p (off, sz, k) = true -> tcount (g_g g) p (L1 ++ L2) < 4294967296) ->
   table_ok g' (L1 ++ (off, sz, k) :: L2).
 Proof.
   intros Hp2 Hen Hk Htab Hcc Hal Hnw.
@@ -474,7 +474,7 @@ Theorem free_regions_table_ok g L1 L2 k off sz g' :
   pow2 (g_g g) -> enabled g = true ->
   table_ok g (L1 ++ (off, sz, k) :: L2) ->
   free_regions g off sz = Some g' ->
-  (forall p, tcount (g_g g) p (L1 ++ (off, sz, k) :: L2) <= 65536) ->
+  (forall p, tcount (g_g g) p (L1 ++ (off, sz, k) :: L2) <= 4294967296) ->
   table_ok g' (L1 ++ L2).
 Proof.
   intros Hp2 Hen Htab Hfr Hnw.
